@@ -86,10 +86,18 @@ def run_model_group(g, tier, seed):
         frac = min(1.0, cquota / max(total, 1))
         kept = nbad = 0
         runs = []
+        chosen = None
+        if "select" in g:
+            # the group picks the behaviours to replay itself (e.g. de-duplication, priorities)
+            chosen = g["select"](name, [h for _, h in vlib.prints(r["out"], "REPLAY")], tier, seed, cquota)
         for bad, hist in vlib.prints(r["out"], "REPLAY"):
             is_bad = bad != "none"
             nbad += is_bad
-            if not (is_bad and nbad <= 40) and not pick(hist, seed, frac):
+            if chosen is not None:
+                if hist not in chosen:
+                    continue
+                chosen.discard(hist)
+            elif not (is_bad and nbad <= 40) and not pick(hist, seed, frac):
                 continue
             tokens = json.loads(hist)
             for var in variants:
